@@ -511,7 +511,7 @@ let run_aclone toks =
   | _ -> failwith "aclone"
 
 (* ---- the whole clone over byte strings: old output scanned in place, seeds scanned, archive ---- *)
-let run_cbytes toks =
+let run_cbytes with_writes toks =
   match toks with
   | [ b; hh; tab; prior; inpl; seeds; ctab ] ->
       let (f, htab, decompf) = aclone_tables b hh tab in
@@ -519,7 +519,11 @@ let run_cbytes toks =
           | [ d; h ] -> (bytes_of_hex d, bytes_of_hex h) | _ -> failwith "cbytes tab") (split_on ';' ctab) in
       let prior = if prior = "-" then [] else bytes_of_hex prior in
       let seeds = if seeds = "-" then [] else List.map (fun s -> if s = "e" then [] else bytes_of_hex s) (split_on ',' seeds) in
-      pr_clone_out (open_and_clone_bytes (hash_oracle (htab @ extra)) decompf f prior (inpl = "1") seeds)
+      if with_writes then
+        (match open_and_clone_bytes_w (hash_oracle (htab @ extra)) decompf f prior (inpl = "1") seeds with
+         | Ok (ws, out) -> "OK w=" ^ String.concat "," (List.map (fun (o, l) -> string_of_int (int_of_n o) ^ ":" ^ string_of_int (int_of_n l)) ws) ^ " " ^ hex_of_bytes out
+         | Err _ -> "ERR" | Panic _ -> "PANIC" | OutOfFuel -> "FUEL")
+      else pr_clone_out (open_and_clone_bytes (hash_oracle (htab @ extra)) decompf f prior (inpl = "1") seeds)
   | _ -> failwith "cbytes"
 
 let dispatch (line : string) : string =
@@ -539,7 +543,8 @@ let dispatch (line : string) : string =
   | "compresscli" :: r -> run_compresscli r
   | "cmd" :: r -> run_cmd r
   | "aclone" :: r -> run_aclone r
-  | "cbytes" :: r -> run_cbytes r
+  | "cbytes" :: r -> run_cbytes false r
+  | "cbytesw" :: r -> run_cbytes true r
   | "trace" :: r -> run_trace r
   | "http" :: r -> run_http r
   | "httpat" :: r -> run_httpat r
